@@ -32,12 +32,36 @@ Definition cast (t : ty) (c : comp) : comp :=
   | _, c => c
   end.
 
-(* assignment into a numpy array of the attribute's dtype: numeric conversion, strings cut to the fixed width *)
+(* python int -> binary64: exact below 2^53, else round to nearest, ties to even *)
+Definition round53 (z : Z) : Z :=
+  let a := Z.abs z in
+  if a <? 2 ^ 53 then z
+  else
+    let e := Z.log2 a - 52 in
+    let q := a / 2 ^ e in
+    let r := a mod 2 ^ e in
+    let half := 2 ^ (e - 1) in
+    let q' := if (half <? r) || ((r =? half) && Z.odd q) then q + 1 else q in
+    Z.sgn z * (q' * 2 ^ e).
+
+(* assignment into a numpy array of the attribute's dtype: numeric conversion (an int becomes the nearest double),
+   strings cut to the fixed width *)
 Definition trunc (l : list Z) : list Z := firstn (Z.to_nat string_width) l.
 Definition store (t : ty) (c : comp) : comp :=
-  match t, cast t c with
-  | TString, CS l => CS (trunc l)
-  | _, c' => c'
+  match t, c with
+  | TFloat, CI z => CF (8 * round53 z)
+  | _, _ => match t, cast t c with
+            | TString, CS l => CS (trunc l)
+            | _, c' => c'
+            end
+  end.
+
+(* the conversion raises OverflowError: an int outside int64 into an int array, an int beyond the doubles into a float array *)
+Definition overflows (t : ty) (c : comp) : bool :=
+  match t, c with
+  | TInt, CI z => (z <? - 2 ^ 63) || (z >=? 2 ^ 63)
+  | TFloat, CI z => 2 ^ 1024 <=? Z.abs (round53 z)
+  | _, _ => false
   end.
 
 Definition trank (t : ty) : Z :=
@@ -112,7 +136,7 @@ Record state := mkst {
 Definition init (c : bool) : state := mkst c 0 [] [] [] 0.
 
 Inductive err := EOob | ESize | EType | EEnum | ENotIter | ENoAttr | EDflt | EBadAppend | EIndex | ENoRef
-                 | EUnpack | ENotSub | EBadRef | EAmbiguous | EShape.
+                 | EUnpack | ENotSub | EBadRef | EAmbiguous | EShape | EOverflow.
 
 Inductive obs :=
 | OOk | OErr (e : err)
@@ -292,13 +316,20 @@ Definition do_set (s : state) (a key : Z) (v : value) : state * obs :=
           match sparse_validate (aty at_) (asz at_) v with
           | inl e => (s, OErr e)
           | inr (true, l) =>
-              (* self._data[key] = Vec(data): a new array object *)
+              (* self._data[key] = Vec(np.array(data, dtype)): a new array object *)
               let kd := if sparse_vec_uses_attr_dtype then aty at_ else vec_kind l in
-              let id := length (hp s) in
-              (with_attrs (with_heap s (hp s ++ [mkcell kd (map (store kd) l)]))
-                          (put a (set_storage at_ (Sparse (upsert key (SVec id) m))) (attrs s)), OOk)
+              if existsb (overflows kd) l then (s, OErr EOverflow)
+              else
+                let id := length (hp s) in
+                (with_attrs (with_heap s (hp s ++ [mkcell kd (map (store kd) l)]))
+                            (put a (set_storage at_ (Sparse (upsert key (SVec id) m))) (attrs s)), OOk)
           | inr (false, l) =>
-              (with_attrs s (put a (set_storage at_ (Sparse (upsert key (SScal (hd CX l)) m))) (attrs s)), OOk)
+              if sparse_scal_converted then
+                (* np.array(value, dtype).item(): the value in the attribute's type *)
+                if existsb (overflows (aty at_)) l then (s, OErr EOverflow)
+                else (with_attrs s (put a (set_storage at_ (Sparse (upsert key (SScal (store (aty at_) (hd CX l))) m))) (attrs s)), OOk)
+              else
+                (with_attrs s (put a (set_storage at_ (Sparse (upsert key (SScal (hd CX l)) m))) (attrs s)), OOk)
           end
       | Dense ne stamp rows =>
           if dense_oob key ne then (s, OErr EOob)
@@ -306,9 +337,11 @@ Definition do_set (s : state) (a key : Z) (v : value) : state * obs :=
             match dense_validate (aty at_) (asz at_) v with
             | inl e => (s, OErr e)
             | inr (isv, l) =>
-                let row := if isv then map (store (aty at_)) l
-                           else repeat (store (aty at_) (hd CX l)) (Z.to_nat (asz at_)) in
-                (with_attrs s (put a (set_storage at_ (Dense ne stamp (upd rows (Z.to_nat key) row))) (attrs s)), OOk)
+                if existsb (overflows (aty at_)) l then (s, OErr EOverflow)
+                else
+                  let row := if isv then map (store (aty at_)) l
+                             else repeat (store (aty at_) (hd CX l)) (Z.to_nat (asz at_)) in
+                  (with_attrs s (put a (set_storage at_ (Dense ne stamp (upd rows (Z.to_nat key) row))) (attrs s)), OOk)
             end
       end
   end.
@@ -452,6 +485,7 @@ Definition do_update (s : state) (a key c : Z) (x : comp) : state * obs :=
   match do_get s a key with
   | (s1, OVal row true) =>
       if (c <? 0) || (c >=? Z.of_nat (length row)) then (s1, OErr EIndex)
+      else if match lookup a (attrs s) with Some at_ => overflows (aty at_) x | None => false end then (s1, OErr EOverflow)
       else match nth_error (refs s1) (length (refs s)) with
            | Some rf => (mut_ref s1 rf c x, OOk)
            | None => (s1, OOther)
